@@ -36,7 +36,7 @@ def floors(tier):
     return {"cases": 20000, "cases_with_2plus_errors": 5000, "cases_context_depth2": 500, "invalid_schemas": 2000,
             "proxy_controls_touched": 500, "via_dollar_schema": 2000, "with_format_checker": 2000,
             "best_match_is_descendant": 500, "best_match_is_toplevel": 2000,
-            "reused_validator_sequences": 1000, "root_reference_objects": 500,
+            "reused_validator_sequences": 1000, "root_reference_objects": 500, "one_reference_under_two_bases": 100,
             "fault_cases": 2000, "fault_after_first_error": 300, "fault_before_first_error": 300,
             "explicit_class_with_foreign_dollar_schema": 1000, "non_object_whole_schemas": 20, "cases_exotic_containers": 800, "repeats_after_a_failed_call": 40}
 
@@ -333,6 +333,40 @@ def reused_validator_sequence(ctx, d, arr, insts):
                 return
 
 
+def same_reference_under_two_bases(ctx):
+    """One reference string standing under two different base URIs in one schema designates two different schemas; instances
+    that visit only one of the places, in either order, on one validator object and through the module-level function."""
+    import types
+    n = 0
+    for d in impl.DRAFTS:
+        idk = "id" if d <= 4 else "$id"
+        for ref, docs in (("item.json", lambda base, t: {base + "item.json": {"type": t}}),
+                          ("item.json#/definitions/t", lambda base, t: {base + "item.json": {"definitions": {"t": {"type": t}}}}),
+                          ("#/definitions/t", lambda base, t: {base: {"definitions": {"t": {"type": t}}}}),
+                          ("../shared.json", lambda base, t: {base.rsplit("/", 2)[0] + "/shared.json": {"type": "number" if t == "integer" else t}}),
+                          ("sub/x.json#", lambda base, t: {base + "sub/x.json": {"type": t}})):
+            for holder in ("items", "additionalProperties", "wrapped"):
+                for ba, bb in (("http://vf.example/c04/a/", "http://vf.example/c04/b/"), ("http://vf.example/c04/a/", "http://other.example/a/"),
+                               ("http://vf.example/c04/deep/a/", "http://vf.example/c04/other/b/")):
+                    n += 1
+                    if not ctx.mine(n):
+                        continue
+                    R = {"$ref": ref}
+                    inner = {"items": R} if holder == "items" else {"additionalProperties": R} if holder == "additionalProperties" else {"allOf": [{"items": R}]}
+                    schema = {idk: "http://vf.example/c04/root.json",
+                              "properties": {"a": dict(inner, **{idk: ba}), "b": dict(inner, **{idk: bb})}}
+                    store = {}
+                    store.update(docs(ba, "integer"))
+                    store.update(docs(bb, "string"))
+                    if len(store) < 2:
+                        continue
+                    mk = (lambda v: [v]) if holder != "additionalProperties" else (lambda v: {"k": v})
+                    insts = [{"a": mk(1)}, {"b": mk("x")}, {"b": mk(1)}, {"a": mk("x")}, {"a": mk(1), "b": mk("x")}, {"b": mk(1), "a": mk(1)}, {}]
+                    ctx.count("one_reference_under_two_bases")
+                    for order in (insts, insts[::-1]):
+                        reused_validator_sequence(ctx, d, types.SimpleNamespace(schema=schema, store=store, handler_docs={}), list(order))
+
+
 DIALECT_SENSITIVE = [{"exclusiveMinimum": 5, "minimum": 1}, {"exclusiveMinimum": True, "minimum": 1}, {"required": ["a"]}, {"required": True},
                      {"items": True}, {"properties": {"a": False}}, {"type": "any"}, {"divisibleBy": 2}, {"const": 1, "contains": {}},
                      {"dependencies": {"a": "b"}}, {"dependencies": {"a": ["b"]}}, {"extends": {"type": "string"}}, {"disallow": "string"},
@@ -451,6 +485,7 @@ def run(ctx):
     C = Cmp(ctx)
     if ctx.shard == 1 % ctx.nshards:
         after_a_failed_call(ctx)
+    same_reference_under_two_bases(ctx)
     # whole schemas that are neither objects nor booleans, given to module-level validate() WITHOUT a class (the latest
     # draft is chosen) and with every explicit class: SchemaError before the instance is looked at
     if ctx.shard == 0:
